@@ -430,6 +430,10 @@ func (p *Path) assertion(cond Value, label Value) {
 			}
 			return
 		}
+		if p.saturated(lab) {
+			p.assume(c)
+			return
+		}
 		neg := p.C.Not(c)
 		p.S.Tag = lab
 		var vec []any
@@ -442,6 +446,7 @@ func (p *Path) assertion(cond Value, label Value) {
 		case smt.Sat:
 			v := &Violation{Label: lab, Detail: "assertion can be false", Vector: vec, Log: append([]int32(nil), p.log...)}
 			p.violations = append(p.violations, v)
+			p.countViolation(lab)
 			// continue with the assertion assumed, to find further distinct labels
 			p.assume(c)
 			if r, _ := p.query(nil); r == smt.Unsat {
